@@ -203,6 +203,16 @@ func (c *Case) LabelN(l string, n int) {
 	S.mu.Unlock()
 }
 
+// AddPlanned records how many planned fault positions a case had and how many actually fired.
+func (c *Case) AddPlanned(planned, fired int) {
+	S.mu.Lock()
+	p, _ := S.Extra["planned_cuts"].(int64)
+	f, _ := S.Extra["fired_cuts"].(int64)
+	S.Extra["planned_cuts"] = p + int64(planned)
+	S.Extra["fired_cuts"] = f + int64(fired)
+	S.mu.Unlock()
+}
+
 // NonTrivial marks the case non-trivial; key must identify the case (distinctness is by key).
 func (c *Case) NonTrivial(key string) {
 	h := sha1.Sum([]byte(c.sub + "\x00" + key))
